@@ -1406,3 +1406,147 @@ M("c12-decoded-length-ignored", ["C12"], {"C12": ["R12.3"]}, "gofakes3.go",
 M("c12-decoder-always-on-for-sha-header", ["C12"], {"C12": ["R12.3"]}, "gofakes3.go",
   """	if sha, ok := meta["X-Amz-Content-Sha256"]; ok && sha == "STREAMING-AWS4-HMAC-SHA256-PAYLOAD" {""",
   """	if sha, ok := meta["X-Amz-Content-Sha256"]; ok && strings.HasPrefix(sha, "STREAMING-") {""")
+
+# ---------------------------------------------------------------- C15
+M("c15-bolt-put-outside-update", ["C15"], {"C15": ["R15.1"]}, "backend/s3bolt/backend.go",
+  """	return result, db.bolt.Update(func(tx *bolt.Tx) error {
+		b := db.s3Bucket(tx, bucketName)
+		if b == nil {
+			return gofakes3.BucketNotFound(bucketName)
+		}
+		if err := b.Delete([]byte(objectName)); err != nil {
+			return fmt.Errorf("gofakes3: delete failed for object %q in bucket %q", objectName, bucketName)
+		}
+		return nil
+	})""", """	return result, db.bolt.View(func(tx *bolt.Tx) error {
+		b := db.s3Bucket(tx, bucketName)
+		if b == nil {
+			return gofakes3.BucketNotFound(bucketName)
+		}
+		if err := b.Delete([]byte(objectName)); err != nil {
+			return fmt.Errorf("gofakes3: delete failed for object %q in bucket %q", objectName, bucketName)
+		}
+		return nil
+	})""")
+
+M("c15-bolt-nosync", ["C15"], {"C15": ["R15.1"]}, "backend/s3bolt/backend.go",
+  """	db, err := bolt.Open(file, 0600, nil)
+	if err != nil {
+		return nil, err
+	}""", """	db, err := bolt.Open(file, 0600, nil)
+	if err != nil {
+		return nil, err
+	}
+	db.NoSync = true""")
+
+M("c15-bolt-update-error-dropped", ["C15"], {"C15": ["R15.1"]}, "backend/s3bolt/backend.go",
+  """	return result, db.bolt.Update(func(tx *bolt.Tx) error {
+		b := db.s3Bucket(tx, bucketName)
+		if b == nil {
+			return gofakes3.BucketNotFound(bucketName)
+		}
+
+		data, err := bson.Marshal(&boltObject{""", """	var notFound error
+	db.bolt.Update(func(tx *bolt.Tx) error {
+		b := db.s3Bucket(tx, bucketName)
+		if b == nil {
+			notFound = gofakes3.BucketNotFound(bucketName)
+			return notFound
+		}
+
+		data, err := bson.Marshal(&boltObject{""", more=[{"file": "backend/s3bolt/backend.go", "old": """		if err := b.Put([]byte(objectName), data); err != nil {
+			return err
+		}
+		return nil
+	})
+}""", "new": """		if err := b.Put([]byte(objectName), data); err != nil {
+			return err
+		}
+		return nil
+	})
+	return result, notFound
+}"""}])
+
+M("c15-boltobject-hash-unexported", ["C15"], {"C15": ["R15.2"]}, "backend/s3bolt/schema.go",
+  """	Contents     []byte
+	Hash         []byte
+}""", """	Contents     []byte
+	Hash         []byte `bson:"-"`
+}""")
+
+M("c15-metadata-size-not-saved", ["C15"], {"C15": ["R15.2"]}, "backend/s3afero/single.go",
+  """		Meta:    meta,
+		Size:    stat.Size(),
+		ModTime: stat.ModTime(),
+	}
+	if err := db.metaStore.saveMeta(db.metaStore.metaPath(bucketName, objectName), storedMeta); err != nil {""", """		Meta:    meta,
+		ModTime: stat.ModTime(),
+	}
+	if err := db.metaStore.saveMeta(db.metaStore.metaPath(bucketName, objectName), storedMeta); err != nil {""")
+
+M("c15-single-ensuremeta-hashes-meta-fs", ["C15"], {"C15": ["R15.3"]}, "backend/s3afero/single.go",
+  """		f, err := db.fs.Open(filepath.FromSlash(objectPath))
+		if err != nil {
+			return nil, err
+		}
+		defer f.Close()
+
+		hasher := md5.New()""", """		f, err := db.metaStore.fs.Open(filepath.FromSlash(objectPath))
+		if err != nil {
+			return nil, err
+		}
+		defer f.Close()
+
+		hasher := md5.New()""")
+
+M("c15-fs-put-acks-before-savemeta", ["C15"], {"C15": ["R15.6"]}, "backend/s3afero/multi.go",
+  """	if err := db.metaStore.saveMeta(db.metaStore.metaPath(bucketName, objectName), storedMeta); err != nil {
+		return result, err
+	}
+
+	return result, nil
+}
+
+func (db *MultiBucketBackend) CopyObject""", """	if err := db.metaStore.saveMeta(db.metaStore.metaPath(bucketName, objectName), storedMeta); err != nil {
+		log.Println("metadata not saved:", err)
+	}
+
+	return result, nil
+}
+
+func (db *MultiBucketBackend) CopyObject""")
+
+M("c15-fs-delete-leaves-metadata", ["C15"], {"C15": ["R15.6"]}, "backend/s3afero/single.go",
+  """	if err := db.metaStore.deleteMeta(db.metaStore.metaPath(bucketName, objectName)); err != nil {
+		return err
+	}
+
+	return nil
+}
+
+// CreateBucket cannot""", """	return nil
+}
+
+// CreateBucket cannot""")
+
+M("c15-cmd-fs-uses-directfs-path", ["C15"], {"C15": ["R15.5"]}, "cmd/gofakes3/main.go",
+  """		baseFs, err := s3afero.FsPath(values.fsPath, values.fsPathFlags())
+		if err != nil {
+			return fmt.Errorf("gofakes3: could not create -fs.path: %v", err)
+		}""", """		baseFs, err := s3afero.FsPath(values.directFsPath, values.fsPathFlags())
+		if err != nil {
+			return fmt.Errorf("gofakes3: could not create -fs.path: %v", err)
+		}""")
+
+M("c15-savemeta-close-error-ignored", ["C15"], {"C15": ["R15.6", "R01.7"]}, "backend/s3afero/single.go",
+  """	if err := f.Close(); err != nil {
+		return result, err
+	}
+
+	closed = true
+
+	stat, err := db.fs.Stat(objectFilePath)""", """	f.Close()
+
+	closed = true
+
+	stat, err := db.fs.Stat(objectFilePath)""")
